@@ -1709,6 +1709,281 @@ func runDBHist(t *tr.W, r *rand.Rand, variant int) {
 	}
 }
 
+
+// runRollbackHist: scripted histories around the filter-HEADER store (the real
+// headerfs store; FetchHeaderAncestors is the only source of the headers a response
+// is verified against).  (1) A network fetch whose range reaches the tip and starts
+// below the coming fork height h, the filter of block h itself not delivered (so that
+// neither the cache nor the database can answer for it later); (2) the real store is
+// rolled back to h-1 and other headers are committed from h on (re-org depth 1..8);
+// (3) right away - the telling call first - the un-batched (or short reverse batch)
+// fetch of block h, answered first with the filter that matched the header committed
+// BEFORE the roll back, then with the one matching the header committed now.  The
+// oracle is the usual one: the returned / cached / persisted filter hash-chains to the
+// header the store returns by height NOW (FetchHeaderByHeight, never FetchHeaderAncestors).
+func runRollbackHist(t *tr.W, r *rand.Rand, variant int) {
+	cap := uint64(3000 + r.Intn(3000))
+	persist := r.Intn(2) == 0
+	w := newWorld(r, cap, persist)
+	u := w.u
+	defer func() {
+		w.close()
+		u.setFilterHeaders(uniBlocks-40, u.truH[uniBlocks-40:])
+	}()
+	t.Case("cf cap %d persist %s tip %d ftip %d maxrange %d", cap, b01(persist), uniBlocks, u.ftip, wire.MaxGetCFiltersReqRange)
+	t.Hit(fmt.Sprintf("cf.rbhist.variant%d", variant))
+	depth := 1 + r.Intn(8)
+	h := uniBlocks - depth + 1 // the lowest height whose header is replaced
+	lo := h - 1 - r.Intn(2)
+	drop := func(x int) bool { return x == h }
+	// (1) the range [lo, tip] from the network, block h's filter never arrives
+	var obs string
+	if r.Intn(2) == 0 && h < uniBlocks {
+		obs = w.honestGet(t, uniBlocks, "r", int64(uniBlocks-lo+1), drop, "nil")
+		t.Hit("cf.rbhist.first.reverse-from-tip")
+	} else {
+		obs = w.honestGet(t, lo, "f", int64(uniBlocks-lo+1+r.Intn(3)), drop, "nil")
+		t.Hit("cf.rbhist.first.forward-to-tip")
+	}
+	if strings.HasPrefix(obs, "HANG") || strings.HasPrefix(obs, "PANIC") {
+		return
+	}
+	// (2) roll back to h-1, commit other headers from h on (the first one always differs)
+	n := depth - r.Intn(2)*r.Intn(depth)
+	if n < 1 {
+		n = 1
+	}
+	var hdrs []chainhash.Hash
+	var ids []string
+	prev := u.cur[h-1]
+	for i := 0; i < n; i++ {
+		f := u.truF[h+i]
+		if i == 0 || r.Intn(2) == 0 {
+			f = u.altF[h+i]
+		}
+		x, err := builder.MakeHeaderForFilter(f, prev)
+		if err != nil {
+			panic(err)
+		}
+		hdrs = append(hdrs, x)
+		ids = append(ids, strconv.Itoa(w.hdrID(x)))
+		prev = x
+	}
+	u.setFilterHeaders(h, hdrs)
+	t.Op(fmt.Sprintf("recommit %d [%s]", h, strings.Join(ids, " ")), "ok")
+	t.Hit("cf.op.rollback-recommit")
+	// (3) block h: the filter of the replaced header first, then the one committed now
+	call := func(target int, batch string, maxBatch int64, resps []resp) string {
+		toks := make([]string, len(resps))
+		for i, rp := range resps {
+			toks[i] = rp.tok + ":1"
+		}
+		o := w.get(t, target, u.hashes[target], true, batch, maxBatch, false, "nil", resps)
+		t.Op(fmt.Sprintf("get %d 1 %s %d 0 nil [%s]", target, batch, maxBatch, strings.Join(toks, " ")), o)
+		return o
+	}
+	stale := func(x int) resp { return w.mkCF(t, wire.GCSFilterRegular, u.hashes[x], nbytes(u.truF[x]), "stale-after-rollback") }
+	good := func(x int) resp { return w.mkCF(t, wire.GCSFilterRegular, u.hashes[x], nbytes(u.altF[x]), "good") }
+	switch variant {
+	case 0:
+		obs = call(h, "n", 0, []resp{stale(h), good(h)})
+	case 1:
+		obs = call(h, "n", 0, []resp{stale(h)})
+		if !strings.HasPrefix(obs, "HANG") && !strings.HasPrefix(obs, "PANIC") {
+			obs = call(h, "n", 0, []resp{good(h)})
+		}
+	default:
+		pre := w.mkCF(t, wire.GCSFilterRegular, u.hashes[h-1], nbytes(u.truF[h-1]), "good")
+		obs = call(h, "r", 2, []resp{stale(h), pre, good(h)})
+	}
+	if strings.HasPrefix(obs, "HANG") || strings.HasPrefix(obs, "PANIC") {
+		return
+	}
+	if strings.HasPrefix(obs, "ret:") && !strings.Contains(obs, " rg - ") {
+		t.Hit("cf.rbhist.fork-height-from-network")
+	}
+	// ask again what was asked before, and walk on over the re-committed blocks
+	w.honestGet(t, h, "n", 0, nil, "nil")
+	for x := h + 1; x <= u.ftip && x <= h+2; x++ {
+		w.honestGet(t, x, "n", 0, nil, "nil")
+	}
+}
+
+
+// ---------------------------------------------------------------------------
+// several chain services / filter stores with different chain parameters in ONE process
+//
+//	case <n> cfnets k <number of networks>
+//	open <net> <gfid> <v>  => ok      real header stores + filterdb.New for that network; gfid: the id of the
+//	                                  genesis filter this driver built itself (BuildBasicFilter of the network's
+//	                                  genesis block), v: it hashes to the committed filter header of height 0
+//	reopen <net> <gfid> <v> => ok     filterdb.New again on the same database file
+//	gget <net> => ret:<fid>:<v> rg <..>|err:<kind>   the real GetCFilter(genesis hash of <net>) of that network's service;
+//	                                  v: the returned bytes hash (with the zero previous header) to what the
+//	                                  network's real filter-header store returns for height 0 NOW
+
+var netTable = []struct {
+	name string
+	p    chaincfg.Params
+}{
+	{"regtest", chaincfg.RegressionNetParams}, {"simnet", chaincfg.SimNetParams}, {"testnet3", chaincfg.TestNet3Params},
+	{"mainnet", chaincfg.MainNetParams}, {"signet", chaincfg.SigNetParams}, {"testnet4", chaincfg.TestNet4Params},
+}
+
+type netWorld struct {
+	idx   int
+	dir   string
+	db    walletdb.DB
+	fdbDB walletdb.DB
+	fs    headerfs.FilterHeaderStore
+	cs    *neutrino.ChainService
+	d     *disp
+}
+
+func runMultiNet(t *tr.W, r *rand.Rand, variant int) {
+	k := 2 + r.Intn(3)
+	perm := r.Perm(len(netTable))[:k]
+	t.Case("cfnets k %d", k)
+	t.Hit(fmt.Sprintf("cf.nets.k%d", k))
+	fid := map[[32]byte]int{}
+	fidOf := func(f *gcs.Filter) int {
+		key := sha256.Sum256(nbytes(f))
+		if id, ok := fid[key]; ok {
+			return id
+		}
+		fid[key] = 1 + len(fid)
+		return fid[key]
+	}
+	var ws []*netWorld
+	defer func() {
+		for _, nw := range ws {
+			nw.cs.VerifCloseQuit()
+			nw.fdbDB.Close()
+			nw.db.Close()
+			os.RemoveAll(nw.dir)
+		}
+	}()
+	matches := func(nw *netWorld, f *gcs.Filter) bool {
+		c, err := nw.fs.FetchHeaderByHeight(0)
+		if err != nil || f == nil {
+			return false
+		}
+		cp, err := gcs.FromNBytes(builder.DefaultP, builder.DefaultM, nbytes(f))
+		if err != nil {
+			return false
+		}
+		got, err := builder.MakeHeaderForFilter(cp, chainhash.Hash{})
+		return err == nil && got == *c
+	}
+	attach := func(nw *netWorld, op string) {
+		np := netTable[nw.idx].p
+		fdb, err := filterdb.New(nw.fdbDB, np)
+		if err != nil {
+			panic(err)
+		}
+		if nw.cs != nil {
+			nw.cs.VerifCloseQuit()
+		}
+		nw.d = &disp{u: &universe{height: map[chainhash.Hash]int{}, bHeight: map[chainhash.Hash]int{}}, verdict: "nil", rg: "-"}
+		bs, err := headerfs.NewBlockHeaderStore(nw.dir, nw.db, &np)
+		if err != nil {
+			panic(err)
+		}
+		if nw.fs == nil {
+			nw.fs, err = headerfs.NewFilterHeaderStore(nw.dir, nw.db, headerfs.RegularFilter, &np, nil)
+			if err != nil {
+				panic(err)
+			}
+		}
+		nw.cs = neutrino.VerifNewQueryService(neutrino.VerifQueryParts{
+			Params: np, BlockHeaders: bs, RegFilterHeaders: nw.fs, FilterDB: fdb,
+			FilterCache: lru.NewCache[neutrino.FilterCacheKey, *neutrino.CacheableFilter](uint64(r.Intn(2)) * 4000),
+			WorkManager: nw.d,
+		})
+		nw.d.cs = nw.cs
+		own, err := builder.BuildBasicFilter(np.GenesisBlock, nil)
+		if err != nil {
+			panic(err)
+		}
+		t.Op(fmt.Sprintf("%s %s %d %s", op, netTable[nw.idx].name, fidOf(own), b01(matches(nw, own))), "ok")
+		t.Hit("cf.nets." + op + "." + netTable[nw.idx].name)
+	}
+	open := func(i int) *netWorld {
+		dir := scratch("verif-cfnet")
+		db, err := walletdb.Create("bdb", filepath.Join(dir, "n.db"), true, 10*time.Second, false)
+		if err != nil {
+			panic(err)
+		}
+		fdbDB, err := walletdb.Create("bdb", filepath.Join(dir, "f.db"), true, 10*time.Second, false)
+		if err != nil {
+			panic(err)
+		}
+		nw := &netWorld{idx: i, dir: dir, db: db, fdbDB: fdbDB}
+		ws = append(ws, nw)
+		attach(nw, "open")
+		return nw
+	}
+	gget := func(nw *netWorld) {
+		np := netTable[nw.idx].p
+		nw.d.rg, nw.d.prog, nw.d.resps = "-", nil, nil
+		ch := make(chan callRes, 1)
+		go func() {
+			defer func() {
+				if e := recover(); e != nil {
+					ch <- callRes{err: fmt.Errorf("PANIC %v", e)}
+				}
+			}()
+			f, err := nw.cs.GetCFilter(*np.GenesisHash, wire.GCSFilterRegular)
+			ch <- callRes{f, err}
+		}()
+		res := "HANG"
+		select {
+		case cr := <-ch:
+			switch {
+			case cr.err == nil && cr.f != nil:
+				res = fmt.Sprintf("ret:%d:%s rg %s", fidOf(cr.f), b01(matches(nw, cr.f)), nw.d.rg)
+			case cr.err == nil:
+				res = "err:nilnil"
+			case strings.HasPrefix(cr.err.Error(), "PANIC"):
+				res = "PANIC"
+			default:
+				res = "err:other"
+			}
+		case <-time.After(10 * time.Second):
+		}
+		t.Op("gget "+netTable[nw.idx].name, res)
+		t.Hit("cf.nets.gget")
+	}
+	switch variant {
+	case 0: // open all, then ask all (in opening order, then reversed)
+		for _, i := range perm {
+			open(i)
+		}
+		for _, nw := range ws {
+			gget(nw)
+		}
+		for i := len(ws) - 1; i >= 0; i-- {
+			gget(ws[i])
+		}
+	case 1: // ask right after each start-up, and the earlier ones again
+		for _, i := range perm {
+			gget(open(i))
+			gget(ws[r.Intn(len(ws))])
+		}
+	default: // re-open the stores in another order (a later start of the same process image)
+		for _, i := range perm {
+			open(i)
+		}
+		for _, j := range r.Perm(len(ws)) {
+			attach(ws[j], "reopen")
+			gget(ws[j])
+		}
+		for _, nw := range ws {
+			gget(nw)
+		}
+	}
+}
+
 func init() {
 	tr.Register("filter", func(t *tr.W, thorough bool) {
 		r := tr.Rng(5)
@@ -1736,6 +2011,16 @@ func init() {
 		rh := tr.Rng(505)
 		for i := 0; i < n/8; i++ {
 			runDBHist(t, rh, i%3)
+		}
+		// scripted roll-back histories of the real filter-header store
+		rb := tr.Rng(515)
+		for i := 0; i < n/24; i++ {
+			runRollbackHist(t, rb, i%3)
+		}
+		// several networks' filter stores in this one process
+		rn := tr.Rng(525)
+		for i := 0; i < n/30; i++ {
+			runMultiNet(t, rn, i%3)
 		}
 		if uni != nil { // the universe may live on /dev/shm, which bin/check does not clean
 			uni.db.Close()
